@@ -58,6 +58,12 @@ func (t *dtr) apiType(ty types.Type) string {
 		return "cfg"
 	case "vedirectapi.FieldListValue":
 		return "flv"
+	case "vedirectapi.RegisterValues":
+		return "regvalues"
+	case "vedirectapi.RegisterValue", "vedirectapi.NumberRegisterValue", "vedirectapi.TextRegisterValue", "vedirectapi.EnumRegisterValue":
+		return "(reg * gvalue)"
+	case "[]github.com/koestler/go-victron/vedirectapi.RegisterValue":
+		return "(list (reg * gvalue))"
 	case "veconst.Field":
 		return "(Z * string)"
 	case "map[github.com/koestler/go-victron/veconst.Field]bool":
@@ -124,6 +130,14 @@ func (t *dtr) apiSelector(x *ast.SelectorExpr) string {
 	if !ok {
 		return ""
 	}
+	if typeName(tv.Type) == "vedirectapi.RegisterValues" {
+		if id, ok := x.X.(*ast.Ident); ok {
+			f := map[string]string{"NumberValues": "rv_numbers", "TextValues": "rv_texts", "EnumValues": "rv_enums", "FieldListValues": "rv_fieldlists"}[x.Sel.Name]
+			if f != "" {
+				return fmt.Sprintf("(%s %s)", f, t.varName(id))
+			}
+		}
+	}
 	if t.isApiObj(x.X) {
 		n := t.varName(x.X.(*ast.Ident))
 		switch x.Sel.Name {
@@ -176,6 +190,29 @@ func (t *dtr) apiCall(x *ast.CallExpr, tv types.TypeAndValue) ([]bnd, string, bo
 	if fn == "strings.Join" && len(x.Args) == 2 {
 		p, a := t.args(x.Args)
 		return p, fmt.Sprintf("(g_join %s %s)", a[1], a[0]), true
+	}
+	if fn == "sort.SliceStable" && len(x.Args) == 2 {
+		lid, ok := x.Args[0].(*ast.Ident)
+		fl, ok2 := x.Args[1].(*ast.FuncLit)
+		if !ok || !ok2 || t.coqType(t.info.Types[lid].Type) != "(list (reg * gvalue))" || len(fl.Body.List) != 1 {
+			t.bad(x, "sort.SliceStable form")
+		}
+		var pn []string
+		for _, p := range fl.Type.Params.List {
+			for _, n := range p.Names {
+				pn = append(pn, n.Name)
+			}
+		}
+		r, ok := fl.Body.List[0].(*ast.ReturnStmt)
+		if !ok || len(r.Results) != 1 || len(pn) != 2 {
+			t.bad(x, "sort.SliceStable comparison")
+		}
+		want := fmt.Sprintf("%s[%s].Sort() < %s[%s].Sort()", lid.Name, pn[0], lid.Name, pn[1])
+		if types.ExprString(r.Results[0]) != want {
+			t.bad(x, "sort.SliceStable comparison %s", types.ExprString(r.Results[0]))
+		}
+		n := t.varName(lid)
+		return []bnd{{n, "g_sort_values_stable " + n, true}}, "tt", true
 	}
 	if fn == "sort.Slice" && len(x.Args) == 2 {
 		lid, ok := x.Args[0].(*ast.Ident)
